@@ -3,6 +3,7 @@ from __future__ import annotations
 
 import json
 import os
+import re
 import tempfile
 
 from hypothesis import strategies as st
@@ -36,6 +37,8 @@ shape_st = st.fixed_dictionaries({
     'layout': st.sampled_from(['old', 'new']),
     'trailing_newline': st.booleans(), 'existing_rules': st.sampled_from([False, False, True]), 'existing_bak': st.booleans(), 'existing_baks': st.sampled_from([[], [], [], ['.bak2'], ['.bak3'], ['.bak2', '.bak3']]), 'existing_tally_dir': st.sampled_from([False, False, True, True, 'output', 'data']),
     'views': st.booleans(), 'output': st.booleans(), 'notes': st.booleans(),
+    # a legacy folder that has rules and statements but no settings.yaml yet (`tally init` is what creates one)
+    'settings': st.sampled_from(['present', 'present', 'present', 'present', 'absent']),
 })
 
 
@@ -44,6 +47,11 @@ def case_st(draw):
     shape = draw(shape_st)
     if shape['entry'] == 'layout':
         shape = dict(shape, layout='old')
+    if shape['entry'] != 'init':
+        shape = dict(shape, settings='present')
+    if shape['settings'] == 'absent':
+        # without settings nothing says which of two rule files is in use: keep the CSV the only one
+        shape = dict(shape, existing_rules=False)
     rules = [r for r in draw(csvrules.csv_file(max_rules=4, escapes=True, quotes=True)) if not csvrules.looks_like_expression(r['pattern']) and not r['pattern'].startswith('#')
              and r['category']]
     rules = [dict(r, mods=[m for m in r['mods'] if m['k'] == 'amount']) for r in rules]
@@ -62,7 +70,8 @@ def build(case, root):
         os.makedirs(os.path.dirname(p), exist_ok=True)
         with open(p, 'w', encoding='utf-8', newline='') as f:
             f.write(text)
-    w('config/settings.yaml', SETTINGS if shape['trailing_newline'] else SETTINGS.rstrip('\n'))
+    if shape.get('settings', 'present') == 'present':
+        w('config/settings.yaml', SETTINGS if shape['trailing_newline'] else SETTINGS.rstrip('\n'))
     w('config/merchant_categories.csv', csvrules.render_csv(case['rules']))
     if shape['existing_rules']:
         w('config/merchants.rules', '# hand-written, not referenced yet\n[Mine]\nmatch: contains("MINE")\ncategory: Mine\n')
@@ -141,8 +150,40 @@ def run_in_child(entry, root, shape, k, mode, log_path=None):
     return os.WEXITSTATUS(status) if os.WIFEXITED(status) else -1
 
 
-def classify_tree(root):
-    """What `tally up` reports on this tree: {merchant: (category, subcategory, count)} or ('error', text)."""
+BANK_ENTRY = '  - name: Bank\n    file: data/bank.csv\n    format: "{date:%Y-%m-%d},{description},{amount}"\n'
+
+
+def classify_tree(root, shape=None, baseline=False):
+    """What `tally up` reports on this tree: {merchant: (category, subcategory, count)} or ('error', text).
+    For a folder generated WITHOUT settings.yaml the report is taken on a copy in which the user's next step is done: the statement is entered
+    as a data source in whatever settings.yaml exists by then (the one `tally init` wrote, or a minimal one)."""
+    if shape is not None and shape.get('settings', 'present') == 'absent':
+        import shutil
+        copy_root = tempfile.mkdtemp(prefix='c15c_', dir=obs.tmpdir())
+        try:
+            shutil.copytree(root, os.path.join(copy_root, 'b'), symlinks=True)
+            croot = os.path.join(copy_root, 'b')
+            found = [os.path.join(d, 'settings.yaml') for d, _, fs in os.walk(croot) if 'settings.yaml' in fs]
+            if not found and not baseline:
+                return ('error', 'no settings.yaml yet: nothing is classified at all')
+            if not found:
+                # the reference point: the same folder with minimal settings, i.e. the legacy CSV in use
+                base = croot if os.path.isdir(os.path.join(croot, 'config')) else os.path.join(croot, 'tally')
+                os.makedirs(os.path.join(base, 'config'), exist_ok=True)
+                with open(os.path.join(base, 'config', 'settings.yaml'), 'w', encoding='utf-8') as f:
+                    f.write(SETTINGS)
+            else:
+                text = open(found[0], encoding='utf-8').read()
+                if 'data/bank.csv' not in text:
+                    if re.search(r'^data_sources:[ \t]*$', text, re.M):
+                        text = re.sub(r'^data_sources:[ \t]*$', lambda m: 'data_sources:\n' + BANK_ENTRY.rstrip('\n'), text, count=1, flags=re.M)
+                    else:
+                        text = text.rstrip('\n') + '\ndata_sources:\n' + BANK_ENTRY
+                    with open(found[0], 'w', encoding='utf-8') as f:
+                        f.write(text)
+            return classify_tree(croot)
+        finally:
+            shutil.rmtree(copy_root, ignore_errors=True)
     r = cli.run(['up', '-q', '--format', 'json', '-v'], cwd=root)
     if r.code != 0:
         return ('error', (r.err or r.out)[-300:])
@@ -165,20 +206,22 @@ def check(case, stats: Stats):
     entry = shape['entry']
     # ---- baseline and dry run
     root0 = fresh(case)
-    baseline = classify_tree(root0)
+    baseline = classify_tree(root0, shape, baseline=True)
     if not isinstance(baseline, dict):
         raise HarnessError(f'baseline budget does not run: {baseline}')
     before = snapshot(root0)
     log_path = os.path.join(obs.tmpdir(), f'effects_{os.getpid()}.log')
     rc = run_in_child(entry, root0, shape, -1, 'dry', log_path)
     effects = [json.loads(l) for l in open(log_path)] if os.path.exists(log_path) else []
-    done = classify_tree(root0)
+    done = classify_tree(root0, shape)
     ctx = f"shape={shape}\neffects={[(e['kind'], e['desc']) for e in effects]}"
     if done != baseline:
         raise Violation(f'after the COMPLETED migration ({entry}) `tally up` gives {done}, before it gave {baseline}\n{ctx}', dict(case, k=-1, mode='none'), 'completed-migration-differs')
     check_content(before, snapshot(root0), shape, ctx, dict(case, k=-1, mode='none'))
     shutil.rmtree(root0, ignore_errors=True)
     stats.classes['entry_' + entry] += 1
+    if shape.get('settings') == 'absent':
+        stats.classes['init_without_settings'] += 1
     n = len(effects)
     # ---- every prefix x mode
     for k, eff in enumerate(effects):
@@ -190,13 +233,13 @@ def check(case, stats: Stats):
             after = snapshot(root)
             what = f"{entry}: {mode} at effect {k}/{n} ({eff['kind']} {eff['desc']})\n{ctx}"
             check_content(before, after, shape, what, inj_case)
-            now = classify_tree(root)
+            now = classify_tree(root, shape)
             rules_on_disk = [p for p in after if p.endswith(('merchant_categories.csv', 'merchants.rules')) or '.csv.bak' in p]
             empty_handed = isinstance(now, dict) and now and all(v[0] == 'Unknown' for v in now.values()) and any(v[0] != 'Unknown' for v in baseline.values())
             # the user re-runs the command (whether or not the budget still works: the migration is visibly unfinished); the budget must classify as before
             # afterwards - in particular a half-written leftover of the first attempt must not be taken for the finished product
             run_entry(entry, root, shape)
-            again = classify_tree(root)
+            again = classify_tree(root, shape)
             if again != baseline:
                 raise Violation(f'stranded: {what}\nafter the fault `tally up` gives {now}\nafter re-running `{entry}` it gives {again}\nbaseline {baseline}\n'
                                 f'files: {sorted(snapshot(root))}', inj_case, 'stranded')
